@@ -392,7 +392,9 @@ def object_mutant_job(job):
 
 def tlc_payload(net):
     """What TLC needs (names of elements and the geometry summary stay in the harness)."""
-    return {k: v for k, v in net.items() if k not in ("uids", "geom", "raw_links")}
+    out = {k: v for k, v in net.items() if k not in ("uids", "geom", "raw_links", "pts")}
+    out["pts"] = [{k: v for k, v in p.items() if k not in ("x", "y", "group_laneAt")} for p in net["pts"]]
+    return out
 
 
 def witness(net, conjunct, w, group_of):
@@ -426,22 +428,26 @@ def spec_groups():
     return out
 
 
-def audit(ck, nets):
-    """Run TLC on a batch of exported networks.  Returns ({index in batch: verdict record}, name of the
-    invariant TLC stopped at in strict mode or None)."""
-    path = os.path.join(scratch(), f"nets-{len(ck.cov['tlc_runs'])}.json")
+def audit_batch(nets, tag="0", workers=4):
+    """Run TLC on a batch of exported networks (no side effects on the Check: may run in a thread).
+    Returns ({index in batch: verdict record}, name of the invariant TLC stopped at in strict mode
+    or None, [(label, TLCResult)])."""
+    path = os.path.join(scratch(), f"nets-{tag}-{os.getpid()}.json")
     with open(path, "w") as f:
         json.dump([tlc_payload(n) for n in nets], f)
-    res = run_tlc("RoadNet", roadnet_cfg(True), env={"NETS": path}, coverage=True, expect_fail=True, timeout=3000)
+    runs = []
+    res = run_tlc("RoadNet", roadnet_cfg(True), env={"NETS": path}, coverage=True, expect_fail=True, timeout=3000,
+                  workers=workers, heap="4g")
     strict_failed = None
     if not res.ok:
         if res.invariant_violated is None:
             raise MachineryError(f"TLC failed on RoadNet:\n{res.error}\n{res.stdout[-1500:]}")
         # a conjunct is violated on some network: TLC stopped there.  Collect every verdict.
         strict_failed = res.invariant_violated
-        ck.add_tlc("RoadNet(strict, stopped at " + strict_failed + ")", res)
-        res = run_tlc("RoadNet", roadnet_cfg(False), env={"NETS": path}, coverage=True, timeout=3000)
-    ck.add_tlc("RoadNet", res)
+        runs.append(("RoadNet(strict, stopped at " + strict_failed + ")", res))
+        res = run_tlc("RoadNet", roadnet_cfg(False), env={"NETS": path}, coverage=True, timeout=3000,
+                      workers=workers, heap="4g")
+    runs.append(("RoadNet", res))
     need = ["AuditLinks", "AuditOwnership", "AuditManeuvers", "AuditLookups", "AuditDirections"]
     missing = [a for a in need if res.coverage.get(a, (0, 0))[1] < len(nets)]
     if missing:
@@ -450,7 +456,41 @@ def audit(ck, nets):
     if len(verdicts) != len(nets):
         raise MachineryError(f"RoadNet printed {len(verdicts)} verdicts for {len(nets)} networks")
     os.remove(path)
-    return verdicts, strict_failed
+    return verdicts, strict_failed, runs
+
+
+def audit(ck, nets):
+    vs, strict, runs = audit_batch(nets, "single", workers=8)
+    for name, res in runs:
+        ck.add_tlc(name, res)
+    return vs, strict
+
+
+def audit_all(ck, allnets, max_bytes, parallel=4):
+    """Split into size-balanced batches and run up to `parallel` TLC processes at a time (deserialising
+    the JSON constant is single-threaded inside one TLC, so several small JVMs beat one big one)."""
+    from concurrent.futures import ThreadPoolExecutor
+
+    sizes = [len(json.dumps(tlc_payload(n))) for n in allnets]
+    nb = max(parallel if len(allnets) >= 2 * parallel else 1, -(-sum(sizes) // max_bytes))
+    bins = [[] for _ in range(nb)]
+    load = [0] * nb
+    for i in sorted(range(len(allnets)), key=lambda i: -sizes[i]):
+        j = load.index(min(load))
+        bins[j].append(i)
+        load[j] += sizes[i]
+    bins = [sorted(b) for b in bins if b]
+    with ThreadPoolExecutor(max_workers=parallel) as ex:
+        futs = [ex.submit(audit_batch, [allnets[i] for i in b], str(k), max(2, 16 // parallel)) for k, b in enumerate(bins)]
+        outs = [f.result() for f in futs]
+    verdict_of = {}
+    for b, (vs, _strict, runs) in zip(bins, outs):
+        for name, res in runs:
+            ck.add_tlc(name, res)
+        for j, i in enumerate(b):
+            verdict_of[i] = vs[j]
+    ck.cov["roadnet_json_bytes"] = sum(sizes)
+    return verdict_of
 
 
 def strip_for_compare(net):
@@ -571,23 +611,11 @@ def roadnet_part(ck, tier):
     if len(mutants) < 6:
         raise MachineryError(f"only {len(mutants)} sensitivity mutants could be built")
 
-    # ---- TLC: batches of <= ~25 MB of JSON
+    # ---- TLC
     allnets = nets + mutants
-    batches, cur, size = [], [], 0
-    for i, n in enumerate(allnets):
-        s = len(json.dumps(tlc_payload(n)))
-        if cur and size + s > 25_000_000:
-            batches.append(cur)
-            cur, size = [], 0
-        cur.append(i)
-        size += s
-    if cur:
-        batches.append(cur)
-    verdict_of = {}
-    for b in batches:
-        vs, _strict = audit(ck, [allnets[i] for i in b])
-        for j, i in enumerate(b):
-            verdict_of[i] = vs[j]
+    t0 = time.time()
+    verdict_of = audit_all(ck, allnets, max_bytes=6_000_000 if tier == "quick" else 12_000_000)
+    ck.cov.setdefault("phase_wall_s", {})["roadnet_tlc"] = round(time.time() - t0, 1)
 
     # ---- verdicts of the real networks
     nconj = None
